@@ -1,7 +1,9 @@
 (* Proofs about model/Metadata.v (C18).  The statements used by props/C18.v are at the end of each part. *)
 From Coq Require Import ZArith NArith List Bool Lia ZifyBool ZifyNat ZifyN Init.Byte Strings.Byte.
+From Coq Require Strings.String.
 From RSV Require Import lib.Bytes gen.GenMime model.Frame model.Metadata.
 Import ListNotations.
+Import Strings.String.StringSyntax.
 Open Scope N_scope.
 
 (* ------------------------------------------------------------------------------------------------ *)
@@ -213,6 +215,9 @@ Proof.
   split; vm_compute; reflexivity.
 Qed.
 
+Lemma Some_inj {A} (a b : A) : Some a = Some b -> a = b.
+Proof. congruence. Qed.
+
 Lemma dropN_1 b r : dropN (b :: r) 1 = r.
 Proof. destruct r; reflexivity. Qed.
 
@@ -222,13 +227,13 @@ Proof.
   destruct auth_headers as (Hs & Hb & Ps & Pb & Fs & Fb).
   unfold wf_entry. intro Hw. apply andb_true_iff in Hw. destruct Hw as [_ Hw].
   cbn [entry_body]. destruct a as [u p|t]; cbn [auth_type ser_auth_body].
-  - rewrite Hs. destruct (lenN u <? 4294967296); [|discriminate]. intro E. injection E as <-.
+  - rewrite Hs. destruct (lenN u <? 4294967296); [|discriminate]. intro E. apply Some_inj in E. subst body.
     remember (be 2 (lenN u) ++ u ++ p) as tail eqn:Et.
     unfold parse_auth. change ([x80] ++ tail) with (x80 :: tail). rewrite Ps, Fs.
     change (1 =? 1) with true. cbv iota. rewrite dropN_1. subst tail.
     rewrite get_be_app by (rewrite pow256_2; lia).
     rewrite takeN_app_exact, dropN_app_exact. reflexivity.
-  - rewrite Hb. intro E. injection E as <-.
+  - rewrite Hb. intro E. apply Some_inj in E. subst body.
     unfold parse_auth. change ([x81] ++ t) with (x81 :: t). rewrite Pb, Fb.
     change (2 =? 1) with false. cbv iota. rewrite dropN_1. reflexivity.
 Qed.
@@ -360,8 +365,9 @@ Theorem backend_independent : forall items, wf_cm items = true -> cm_encode_bk N
 Proof.
   induction items as [|e r IH]; intro Hw; [reflexivity|].
   cbn [wf_cm forallb] in Hw. apply andb_true_iff in Hw. destruct Hw as [He Hr].
-  cbn [cm_encode_bk]. rewrite (IH Hr). f_equal. unfold enc_entry.
-  destruct (ser_wk mime_table (entry_encoding e)); [|reflexivity].
+  cbn [cm_encode_bk]. rewrite (IH Hr).
+  assert (enc_entry Native e = enc_entry Cbit e) as ->; [|reflexivity]. unfold enc_entry.
+  destruct (ser_wk mime_table (entry_encoding e)) as [h|]; [|reflexivity].
   assert (body_fits e = true) as Hf by (unfold wf_entry in He; apply andb_true_iff in He; tauto).
   unfold body_fits in Hf. destruct (entry_body e) as [b|]; [|reflexivity].
   apply N.ltb_lt in Hf. rewrite !pack24_small by exact Hf. reflexivity.
@@ -373,4 +379,197 @@ Theorem reencode : forall bk items bs, cm_encode_bk bk items = Some bs -> wf_cm 
 Proof.
   intros bk items bs E Hw items' D. destruct (roundtrip_bk bk items Hw) as (bs' & E' & D').
   rewrite E in E'. injection E' as <-. rewrite D in D'. injection D' as ->. exact E.
+Qed.
+
+(* ------------------------------------------------------------------------------------------------ *)
+(* Part J: the decoder is total: fuel = length suffices, more fuel changes nothing, and cm_decode satisfies the
+   loop equation of CompositeMetadata.parse without any fuel *)
+
+Lemma get_be_length k buf v rest : get_be k buf = Some (v, rest) -> (length rest + k = length buf)%nat.
+Proof.
+  intro E. apply get_be_some in E. destruct E as [E _]. rewrite E. rewrite app_length, be_length. lia.
+Qed.
+
+Lemma decode_fuel2 : forall f1 f2 buf, (length buf <= f1)%nat -> (length buf <= f2)%nat ->
+  cm_decode_fuel f1 buf = cm_decode_fuel f2 buf.
+Proof.
+  induction f1 as [|f1 IH]; intros f2 buf H1 H2.
+  - destruct buf; [|cbn in H1; lia]. destruct f2; reflexivity.
+  - destruct buf as [|b r]; [destruct f2; reflexivity|].
+    destruct f2 as [|f2]; [cbn in H2; lia|].
+    rewrite !cm_decode_fuel_step by discriminate.
+    destruct (parse_wk mime_name_of_id (b :: r)) as [[enc off]|]; [|reflexivity].
+    destruct (get_be 3 (dropN (b :: r) off)) as [[len r2]|] eqn:Eg; [|reflexivity].
+    destruct (parse_item enc (takeN r2 len)); [|reflexivity].
+    apply get_be_length in Eg. rewrite dropN_length in Eg.
+    rewrite (IH f2 (dropN r2 len)); [reflexivity| |]; rewrite dropN_length; lia.
+Qed.
+
+Theorem decode_total : forall bs f, (length bs <= f)%nat -> cm_decode_fuel f bs = cm_decode bs.
+Proof. intros bs f H. unfold cm_decode. apply decode_fuel2; lia. Qed.
+
+Theorem decode_unfold : forall buf, cm_decode buf =
+  match buf with
+  | [] => Some []
+  | _ =>
+      match parse_wk mime_name_of_id buf with
+      | None => None
+      | Some (enc, off) =>
+          match get_be 3 (dropN buf off) with
+          | None => None
+          | Some (len, r2) =>
+              match parse_item enc (takeN r2 len) with
+              | None => None
+              | Some e => match cm_decode (dropN r2 len) with Some es => Some (e :: es) | None => None end
+              end
+          end
+      end
+  end.
+Proof.
+  intros [|b r]; [reflexivity|]. unfold cm_decode at 1. cbn [length].
+  rewrite cm_decode_fuel_step by discriminate.
+  destruct (parse_wk mime_name_of_id (b :: r)) as [[enc off]|]; [|reflexivity].
+  destruct (get_be 3 (dropN (b :: r) off)) as [[len r2]|] eqn:Eg; [|reflexivity].
+  destruct (parse_item enc (takeN r2 len)); [|reflexivity].
+  apply get_be_length in Eg. rewrite dropN_length in Eg. cbn [length] in Eg.
+  rewrite decode_total; [reflexivity|]. rewrite dropN_length. lia.
+Qed.
+
+(* ------------------------------------------------------------------------------------------------ *)
+(* Part K: over-long names and tags are rejected: no bytes are produced *)
+
+Lemma ser_wk_overlong n : overlong_name n = true -> ser_wk mime_table n = None.
+Proof.
+  unfold overlong_name, ser_wk, mime_id_of_name, ser_128max. destruct (dict_get mime_table n); [discriminate|].
+  intro H. apply N.ltb_lt in H. unfold lenN in H.
+  destruct (Z.gtb_spec (Z.of_nat (length n) - 1) 127); [reflexivity|lia].
+Qed.
+
+Lemma ser_mimes_overlong : forall encs, existsb overlong_name encs = true -> ser_mimes encs = None.
+Proof.
+  induction encs as [|e r IH]; [discriminate|]. cbn [existsb ser_mimes]. intro H.
+  apply orb_true_iff in H. destruct H as [H|H].
+  - rewrite (ser_wk_overlong _ H). reflexivity.
+  - rewrite (IH H). destruct (ser_wk mime_table e); reflexivity.
+Qed.
+
+Lemma ser_tags_overlong : forall tags, existsb (fun t => 255 <? lenN t) tags = true -> ser_tags tags = None.
+Proof.
+  induction tags as [|t r IH]; [discriminate|]. cbn [existsb ser_tags]. intro H.
+  apply orb_true_iff in H. destruct H as [H|H].
+  - rewrite H. reflexivity.
+  - rewrite (IH H). destruct (255 <? lenN t); reflexivity.
+Qed.
+
+Lemma enc_entry_overlong bk e : has_overlong e = true -> enc_entry bk e = None.
+Proof.
+  unfold enc_entry. destruct e as [enc c|tags|enc|encs|a]; cbn [has_overlong entry_encoding entry_body]; intro H.
+  - rewrite (ser_wk_overlong _ H). reflexivity.
+  - rewrite (ser_tags_overlong _ H). destruct (ser_wk mime_table (ctor_encoding 1)); reflexivity.
+  - rewrite (ser_wk_overlong _ H). destruct (ser_wk mime_table (ctor_encoding 2)); reflexivity.
+  - rewrite (ser_mimes_overlong _ H). destruct (ser_wk mime_table (ctor_encoding 3)); reflexivity.
+  - discriminate.
+Qed.
+
+(* C18_rejects_overlong *)
+Theorem rejects_overlong : forall bk items e, In e items -> has_overlong e = true -> cm_encode_bk bk items = None.
+Proof.
+  induction items as [|x r IH]; intros e Hin Ho; [destruct Hin|].
+  cbn [cm_encode_bk]. destruct Hin as [->|Hin].
+  - rewrite (enc_entry_overlong bk e Ho). reflexivity.
+  - rewrite (IH e Hin Ho). destruct (enc_entry bk x); reflexivity.
+Qed.
+
+(* ------------------------------------------------------------------------------------------------ *)
+(* Part M: every hypothesis of wf_cm is needed *)
+
+(* custom name of 0 bytes: header byte (-1) & 0x7f = 127 announces 128 name bytes *)
+Example ex_empty_name : rt_fails [EItem [] [x01]].
+Proof. right. eexists. split; [vm_compute; reflexivity|vm_compute; discriminate]. Qed.
+(* custom name of 129 bytes: rejected *)
+Example ex_name_129 : rt_fails [EItem (repeat x61 129) [x01]].
+Proof. left. vm_compute. reflexivity. Qed.
+(* the reserved rows: ids -2 / -1 are written as 0xFE / 0xFF and come back as ROUTING / COMPOSITE_METADATA *)
+Example ex_reserved_1 : rt_fails [EItem (ascii "UNPARSEABLE_MIME_TYPE_DO_NOT_USE") [x01; x61]].
+Proof. right. eexists. split; [vm_compute; reflexivity|vm_compute; discriminate]. Qed.
+Example ex_reserved_2 : rt_fails [EDataMime (ascii "UNKNOWN_YET_RESERVED_DO_NOT_USE")].
+Proof. right. eexists. split; [vm_compute; reflexivity|vm_compute; discriminate]. Qed.
+(* a generic item carrying the MIME type of a typed entry is decoded as that typed entry *)
+Example ex_typed_name : rt_fails [EItem (ascii "message/x.rsocket.routing.v0") [x01; x61]].
+Proof. right. eexists. split; [vm_compute; reflexivity|vm_compute; discriminate]. Qed.
+Example ex_typed_name_raises : exists bs,
+  cm_encode [EItem (ascii "message/x.rsocket.authentication.v0") []] = Some bs /\ cm_decode bs = None.
+Proof. eexists. split; vm_compute; reflexivity. Qed.
+(* a tag of 256 bytes: rejected *)
+Example ex_tag_256 : rt_fails [ERouting [repeat x61 256]].
+Proof. left. vm_compute. reflexivity. Qed.
+(* a user name of 2^16 bytes: the 16-bit length wraps to 0, everything comes back as the password *)
+Lemma username_wraps :
+  match cm_encode [EAuth (ASimple user_65536 [x62])] with
+  | Some bs => match cm_decode bs with
+               | Some [EAuth (ASimple u p)] => lenN u = 0 /\ lenN p = 65537
+               | _ => False
+               end
+  | None => False
+  end.
+Proof. vm_compute. split; reflexivity. Qed.
+Example ex_username_65536 : rt_fails [EAuth (ASimple user_65536 [x62])].
+Proof.
+  pose proof username_wraps as H. right.
+  destruct (cm_encode [EAuth (ASimple user_65536 [x62])]) as [bs|]; [|contradiction].
+  exists bs. split; [reflexivity|]. intro D. rewrite D in H. destruct H as [H _].
+  vm_compute in H. discriminate H.
+Qed.
+
+(* an entry body of 2^24 bytes: cbitstruct refuses; the native struct back end writes length 0 and the body is
+   then parsed as further entries *)
+Lemma takeN_0 l : takeN l 0 = [].
+Proof. destruct l; reflexivity. Qed.
+
+Example ex_body_2p24 : forall c, lenN c = 16777216 ->
+  cm_encode_bk Cbit [EItem [x61] c] = None /\
+  exists bs, cm_encode_bk Native [EItem [x61] c] = Some bs /\ cm_decode bs <> Some [EItem [x61] c].
+Proof.
+  intros c Hc.
+  assert (Hh : ser_wk mime_table [x61] = Some [x00; x61]) by (vm_compute; reflexivity).
+  assert (Hn : wf_name [x61] = true) by (vm_compute; reflexivity).
+  assert (Hk : typed_kind [x61] = None) by (vm_compute; reflexivity).
+  split.
+  - cbn [cm_encode_bk]. unfold enc_entry. cbn [entry_encoding entry_body]. rewrite Hh. unfold pack24. rewrite Hc.
+    reflexivity.
+  - exists ([x00; x61] ++ be 3 0 ++ c ++ []). split.
+    + cbn [cm_encode_bk]. unfold enc_entry. cbn [entry_encoding entry_body]. rewrite Hh. unfold pack24. rewrite Hc.
+      change (16777216 <? 4294967296) with true. cbv iota.
+      change (be 3 16777216) with (be 3 0). rewrite <- !app_assoc. reflexivity.
+    + rewrite decode_unfold. change ([x00; x61] ++ ?r) with (x00 :: ([x61] ++ r)) at 1. cbv iota.
+      rewrite (wk_roundtrip [x61] [x00; x61] _ Hn Hh). rewrite dropN_app_exact.
+      rewrite get_be_app by (rewrite pow256_3; lia). rewrite takeN_0.
+      unfold parse_item. rewrite Hk.
+      destruct (cm_decode (dropN (c ++ []) 0)); [|discriminate].
+      intro E. apply Some_inj in E. injection E as E _. subst c. discriminate Hc.
+Qed.
+
+(* 7-bit ids as the decoder sees them *)
+Lemma mime_lookup_inverse_N n i : mime_name_of_id i = Some n <-> mime_id_of_name n = Some (Z.of_N i).
+Proof.
+  destruct tables_bijective as [(_ & _ & _ & _ & _ & H) _]. unfold mime_name_of_id, mime_id_of_name.
+  symmetry. apply H.
+Qed.
+
+Lemma hypotheses_needed :
+  rt_fails [EItem [] [x01]] /\
+  rt_fails [EItem (repeat x61 129) [x01]] /\
+  rt_fails [EItem (ascii "UNPARSEABLE_MIME_TYPE_DO_NOT_USE") [x01; x61]] /\
+  rt_fails [EDataMime (ascii "UNKNOWN_YET_RESERVED_DO_NOT_USE")] /\
+  rt_fails [EItem (ascii "message/x.rsocket.routing.v0") [x01; x61]] /\
+  (exists bs, cm_encode [EItem (ascii "message/x.rsocket.authentication.v0") []] = Some bs /\ cm_decode bs = None) /\
+  rt_fails [ERouting [repeat x61 256]] /\
+  rt_fails [EAuth (ASimple user_65536 [x62])] /\
+  (forall c, lenN c = 16777216 ->
+     cm_encode_bk Cbit [EItem [x61] c] = None /\
+     exists bs, cm_encode_bk Native [EItem [x61] c] = Some bs /\ cm_decode bs <> Some [EItem [x61] c]).
+Proof.
+  repeat split;
+    [exact ex_empty_name|exact ex_name_129|exact ex_reserved_1|exact ex_reserved_2|exact ex_typed_name|
+     exact ex_typed_name_raises|exact ex_tag_256|exact ex_username_65536| | ]; apply ex_body_2p24; assumption.
 Qed.
